@@ -19,6 +19,8 @@ namespace etl {
 /// Denom are representable as compile-time constants of type intmax_t.
 template <intmax_t Num, intmax_t Denom = 1>
 struct ratio {
+    static_assert(Denom != 0, "ratio denominator cannot be zero");
+
     static constexpr intmax_t num = detail::sign(Num) * detail::sign(Denom) * abs(Num) / gcd(Num, Denom);
     static constexpr intmax_t den = abs(Denom) / gcd(Num, Denom);
 
